@@ -19,9 +19,14 @@ import (
 // ---------------------------------------------------------------------------------------------
 // C03 — accepted => authenticated by the signer's key over the canonical bytes, fee paid, not a replay.
 
-type C03 struct{}
+type C03 struct {
+	// executed: signed content (signer, entropy, message, fee, memo) of transactions accepted by DeliverTx -> block height
+	executed map[string]int64
+}
 
-func (C03) OnCall(e *sim.Env, c *sim.Call) {
+func NewC03() *C03 { return &C03{executed: map[string]int64{}} }
+
+func (m *C03) OnCall(e *sim.Env, c *sim.Call) {
 	if c.Kind != "check" && c.Kind != "deliver" {
 		return
 	}
@@ -111,6 +116,16 @@ func (C03) OnCall(e *sim.Env, c *sim.Call) {
 	}
 	if e.Idx.Has(c.Meta.Hash) && !txInCurrentBlockOnly(e, c) {
 		viol("replay", "transaction hash is already in the chain's tx index")
+	}
+	// the same signed content under other bytes (trailing garbage, another encoding of the same transaction) is the
+	// same transaction: executing it again in a later block is a replay even though its hash is new
+	if msgBz, err := e.A.Cdc.MarshalBinaryBare(tx.Msg); err == nil && m.executed != nil {
+		key := fmt.Sprintf("%s|%d|%x|%v|%q|%x", signer, tx.Entropy, msgBz, tx.Fee, tx.Memo, tx.Signature.Signature)
+		if h0, seen := m.executed[key]; seen && h0 < c.H {
+			viol("replay/same-signed-content", fmt.Sprintf("the same signed transaction (same signer, entropy, message, fee, memo, signature) was executed in block %d; these bytes differ from the indexed ones", h0))
+		} else if mode == "deliver" && !seen {
+			m.executed[key] = c.H
+		}
 	}
 	if mode == "deliver" {
 		dcol := sub(c.Post.View.Bal(FeeAddr), pre.Bal(FeeAddr))
